@@ -99,6 +99,10 @@ def build_template(spec, chart):
     b.fns[i] = state_method_template(state_name(i))
   for (i, key), cb in b.callbacks(chart).items():
     chart.register_signal_callback(b.fns[i], signum(key), cb)
+  if spec.get("reparent") and spec["n"] > 1:
+    # a first draft of the hierarchy that is corrected afterwards: the last registration counts
+    for i in range(spec["n"]):
+      chart.register_parent(b.fns[i], b.fns[(i + 1) % spec["n"]])
   for i in range(spec["n"]):
     p = spec["parent"][i]
     chart.register_parent(b.fns[i], chart.top if p == -1 else b.fns[p])
@@ -116,6 +120,9 @@ def build_factory(spec, factory, by_name=False):
       if j == i:
         bp = bp.catch(signal=signum(key), handler=cb)
     b.fns[i] = bp.to_method()
+  if spec.get("reparent") and spec["n"] > 1:
+    for i in range(spec["n"]):
+      factory.nest(b.fns[i], parent=b.fns[(i + 1) % spec["n"]])
   for i in range(spec["n"]):
     p = spec["parent"][i]
     if by_name:
@@ -180,10 +187,24 @@ class C17(Prop):
       return case
     flav = st.sampled_from([["function"], ["function"], ["function", "partial", "object", "method"], ["partial"],
                             ["object"], ["method"], ["function", "method"]])
+    def library_signal(case, pick):
+      # a callback table may also catch one of the library's own dispatched signals
+      if pick != 0:
+        return case
+      spec = case["spec"]
+      old, new = spec["sigs"][0], "STOP_FABRIC_SIGNAL"
+      ren = lambda x: new if x == old else x
+      spec = dict(spec, sigs=[ren(x) for x in spec["sigs"]],
+                  react=[dict((ren(k), v) for k, v in r.items()) for r in spec["react"]])
+      return dict(case, spec=spec, events=[ren(x) for x in case["events"]])
+
+    def redraft(case, pick):
+      return dict(case, spec=dict(case["spec"], reparent=True)) if pick == 0 else case
     return st.tuples(chartgen.chart_case(max_events=8, max_states=8, max_sigs=3, spy=True), flav,
-                     st.one_of(st.none(), st.integers(0, 200)), st.integers(0, 2)).map(
-      lambda t: some_callback(dict(t[0], spec=dict(t[0]["spec"], flavours=t[1]), late=t[2],
-                                   by_name=(t[3] == 0))))
+                     st.one_of(st.none(), st.integers(0, 200)), st.integers(0, 2), st.integers(0, 3),
+                     st.integers(0, 2)).map(
+      lambda t: some_callback(redraft(library_signal(dict(t[0], spec=dict(t[0]["spec"], flavours=t[1]), late=t[2],
+                                                          by_name=(t[3] == 0)), t[4]), t[5])))
 
   def transcript_direct(self, case, chart, build):
     from miros.event import Event, signals
@@ -263,7 +284,22 @@ class C17(Prop):
 
     def from_code(src_chart, src_build, label):
       bc = build_from_code(spec, src_chart, src_build, by_name=(label == "factory" and bool(case.get("by_name"))))
-      return self.transcript_direct(case, hsmcheck.make_host("queued"), bc)
+      # the functions made from the to_code text are nobody's generated handlers: count their calls
+      # so that a hierarchy that goes round in circles is cut short instead of hanging the check
+      import sys
+      calls = [0]
+
+      def counting(frame, event, arg):
+        if event == "call" and frame.f_code.co_filename.startswith("<to_code"):
+          calls[0] += 1
+          if calls[0] > 50000:
+            raise HarnessBound("state functions made from the to_code text were called more than 50000 times")
+        return None
+      sys.settrace(counting)
+      try:
+        return self.transcript_direct(case, hsmcheck.make_host("queued"), bc)
+      finally:
+        sys.settrace(None)
     guarded("to_code(template)", lambda: from_code(t1, b1, "template"))
 
     # Factory as a started active object under the scheduler
